@@ -41,7 +41,9 @@ ASSUMPTIONS = [
     "lone surrogates are excluded from texts (not encodable)",
 ]
 
-CHARSETS = ["utf8", "utf-16", "utf-16-le", "utf-32", "latin-1", None, "gb18030", "ascii"]
+CHARSETS = ["utf8", "utf-16", "utf-16-le", "utf-32", "latin-1", None, "gb18030", "ascii",
+            # decoders that hold text back until the end of the input (BOM sniffing, shift sequences)
+            "utf-8-sig", "utf-7"]
 POOL = ["a", "Z", "0", " ", "\n", "\x00", "\x7f", "\xe9", "\xff", "́", "€", "☃",
         "퟿", "", "﻿", "￿", "\U00010000", "\U0001f600", "\U0010ffff", "'", '"', "\\"]
 
@@ -225,6 +227,8 @@ def x_stream(ctx, case):
     assert expected == data[pos:]
     ct = ContentType("application", "octet-stream")
     kw = {} if off is None else {"seek_offset": off, "seek_whence": wh}
+    if wh == 0 and case.get("whence_omitted"):
+        kw.pop("seek_whence", None)          # "from the start" is the default
     # -- stream
     s = SpyStream(data, case.get("short"))
     c = content_from_stream(s, ct, cs, buffer_now=bn, **kw)
@@ -262,6 +266,16 @@ def x_stream(ctx, case):
               lambda: {"chunks": chunks, "chunk_size": cs})
     ctx.check(all(o[1] == cs for o in s.ops if o[0] == "read"), "stream.read-size==chunk_size",
               lambda: {"ops": s.ops})
+    # -- the declared type is kept; none given means UTF-8 text/plain (as documented)
+    from testtools.content import content_from_reader
+    from testtools.content_type import UTF8_TEXT
+    for label, made in (("stream", lambda t: content_from_stream(io.BytesIO(data), t, cs, buffer_now=bn)),
+                        ("file", lambda t: content_from_file(__file__, t, cs, buffer_now=bn)),
+                        ("reader", lambda t: content_from_reader(lambda: [data], t, bn))):
+        got_ct, got_default = made(ct).content_type, made(None).content_type
+        ctx.check(got_ct == ct and repr(got_ct) == repr(ct) and got_default == UTF8_TEXT
+                  and repr(got_default) == 'text/plain; charset="utf8"', "stream.declared-type-kept",
+                  lambda: {"made from": label, "given": repr(ct), "got": repr(got_ct), "none given": repr(got_default)})
     # -- real file, created late for the lazy mode
     d = tempfile.mkdtemp(prefix="tvm-c16-")
     try:
@@ -506,8 +520,18 @@ def run(ctx):
                         n_enum += 1
                         ctx.execute("decode", {"charset": charset, "hex": b.hex(), "cuts": cuts,
                                                "empties": empties})
-    ctx.note_space("decode: every cut (+empty-chunk placements) of %d short texts x %d charsets"
-                   % (len(short_texts), len(CHARSETS)), n_enum)
+    # inputs shorter than a BOM under utf-8-sig, open shift sequences under utf-7: text only the final flush yields
+    for charset, hexes in (("utf-8-sig", ["61", "6162", "c3a9", "efbbbf61", "e29883", "efbbbf"]),
+                           ("utf-7", ["2b4147452d", "612b4147452d62", "2b414745", "61"])):
+        for h in hexes:
+            n = len(h) // 2
+            for mask in range(1 << max(0, n - 1)):
+                if ctx.mine():
+                    n_enum += 1
+                    ctx.execute("decode", {"charset": charset, "hex": h,
+                                           "cuts": [i + 1 for i in range(n - 1) if mask >> i & 1], "empties": []})
+    ctx.note_space("decode: every cut (+empty-chunk placements) of %d short texts x %d charsets, plus raw inputs that "
+                   "only the decoder's final flush completes" % (len(short_texts), len(CHARSETS)), n_enum)
     # random texts and random / arbitrary bytes
     ctx.notes["random_cases"] = True
     for i in range(ctx.scale(8000, 300000)):
@@ -524,8 +548,11 @@ def run(ctx):
         else:
             # arbitrary (possibly invalid) bytes; BOM-sniffing codecs excluded, their
             # incremental decoders in the stdlib insist on a BOM that whole decoding does not
+            # (and the stdlib's utf-8-sig decoder silently drops a proper prefix of the BOM at the very end)
             if charset in ("utf-16", "utf-32"):
                 charset = "utf-16-le"
+            elif charset in ("utf-8-sig", "utf-7"):
+                charset = "utf8"
             b = bytes(rng.randrange(256) for _ in range(rng.randint(0, 10)))
         cuts = sorted({rng.randint(0, len(b)) for _ in range(rng.randint(0, 6))})
         empties = [rng.randint(0, 6) for _ in range(rng.randint(0, 2))]
@@ -578,7 +605,8 @@ def run(ctx):
                     if ctx.mine():
                         n_enum += 1
                         ctx.execute("stream", {"hex": data.hex(), "chunk": cs, "offset": off,
-                                               "whence": wh, "buffer_now": bn})
+                                               "whence": wh, "buffer_now": bn,
+                                               "whence_omitted": wh == 0 and (n_enum % 2 == 0)})
     ctx.note_space("stream: length 0..%d x chunk_size 1..%d x 11 seek positions x buffer_now"
                    % (maxlen - 1, maxcs - 1), n_enum)
     for i in range(ctx.scale(2000, 60000)):
@@ -590,7 +618,7 @@ def run(ctx):
         wh = 0 if off is None or off >= 0 and rng.random() < 0.7 else 2
         cs = rng.choice([1, 2, 3, 5, 8, 16, 64, 4096])
         case = {"hex": data.hex(), "chunk": cs, "offset": off, "whence": wh,
-                "buffer_now": rng.random() < 0.5}
+                "buffer_now": rng.random() < 0.5, "whence_omitted": rng.random() < 0.5}
         if rng.random() < 0.4:
             case["short"] = [rng.randint(1, max(1, cs)) for _ in range(rng.randint(1, 6))]
         ctx.execute("stream", case)
